@@ -60,6 +60,14 @@ DomainOK32(r, a, j, K) ==
   /\ InRange32L(RateAtL(r, a, j, One)) /\ InRange32L(RateAtL(r, a, j, K))
   /\ \A k \in VertexCands(a, j) : InMove(k, K) => InRange32L(RateAtL(r, a, j, FromInt(k)))
   /\ InRange32L(AccelAtL(a, j, K))
+\* C17's helper exists to detect moves that exceed the rate limit, so its inputs may overshoot it: rates up to 16 * 2^31 are judged
+BBig == Mul(FromInt(16), Add(BMm1, One))
+InRangeBigL(x) == Cmp(Abs(x), BBig) <= 0
+DomainPeak(r, a, j, K) ==
+  /\ K.s > 0
+  /\ InRangeBigL(RateAtL(r, a, j, One)) /\ InRangeBigL(RateAtL(r, a, j, K))
+  /\ \A k \in VertexCands(a, j) : InMove(k, K) => InRangeBigL(RateAtL(r, a, j, FromInt(k)))
+  /\ InRangeL(AccelAtL(a, j, K))
 BMax(x, y) == IF Cmp(x, y) >= 0 THEN x ELSE y
 \* true peak |rate| over ticks 1..K: a discrete parabola peaks at an end or next to its turning point
 PeakL(r, a, j, K) ==
